@@ -78,12 +78,20 @@ func mergeOp(names, texts []string, schema string) string {
 	return L("merge", Q(schema), L(files...))
 }
 
+// mergeWFOp asks the Lean driver whether the parsed files meet the hypothesis `FilesWF` of the merge
+// theorems (Props/C07.lean); the expected answer is always "(wf true)".
+func mergeWFOp(names, texts []string) string {
+	op := mergeOp(names, texts, "")
+	return "(merge-wf " + strings.TrimPrefix(op, "(merge \"\" ")
+}
+
 // c07Check: verdict, conservation and attribution for one module set.
 func c07Check(c *Ctx, ms *ModSet, schema string, stream string) mergeRes {
 	c.R.Evaluations++
 	res := realMerge(ms.Names, ms.Texts, schema)
 	input := map[string]any{"files": filesInput(ms), "conflicts": ms.Conflicts, "schema": schema}
 	c.D.Add("corr:merge/"+stream, mergeOp(ms.Names, ms.Texts, schema), res.Out, input)
+	c.D.Add("hyp:FilesWF/"+stream, mergeWFOp(ms.Names, ms.Texts), "(wf true)", input)
 	fail := func(detail string) { c.OracleFail("c07:"+stream, input, detail, res.Out) }
 	if res.Panic != "" {
 		fail("merge panicked: " + res.Panic)
@@ -122,6 +130,50 @@ func c07Check(c *Ctx, ms *ModSet, schema string, stream string) mergeRes {
 		}
 		c.Nontrivial(res.Out)
 		return res
+	}
+	// the result is a function of the files given: merging the same files again, and merging only the
+	// files that define types (the extending files left out), must not see anything of the first merge
+	if again := realMerge(ms.Names, ms.Texts, schema); again.Out != res.Out {
+		c.OracleFail("c07:"+stream+"/again", map[string]any{"files": filesInput(ms), "first": res.Out, "second": again.Out},
+			"merging the same files a second time gives a different result", again.Out)
+		return res
+	}
+	if len(ms.Files) > 1 {
+		var names, texts []string
+		for i, f := range ms.Files {
+			ext := false
+			for _, t := range f.Types {
+				if t.Extend {
+					ext = true
+				}
+			}
+			if !ext {
+				names = append(names, ms.Names[i])
+				texts = append(texts, ms.Texts[i])
+			}
+		}
+		if len(names) > 0 && len(names) < len(ms.Names) {
+			sub := realMerge(names, texts, schema)
+			c.D.Add("corr:merge/"+stream+"-without-extensions", mergeOp(names, texts, schema), sub.Out, map[string]any{"names": names})
+			if sub.Model != nil {
+				for _, td := range sub.Model.GetTypeDefinitions() {
+					for rel := range td.GetRelations() {
+						declared := false
+						for _, t := range texts {
+							if strings.Contains(t, rel) {
+								declared = true
+							}
+						}
+						if !declared {
+							c.OracleFail("c07:"+stream+"/invented", map[string]any{"files": filesInput(ms), "merged_subset": names, "type": td.GetType(), "relation": rel},
+								"the merge of a subset of the files contains a relation none of them declares (left over from an earlier merge)", sub.Out)
+							return res
+						}
+					}
+				}
+			}
+			c.Dist("subset_merges")
+		}
 	}
 	// conservation + attribution
 	exp := *ms.Expected
